@@ -877,3 +877,54 @@ func FlatMap(project func(v any, i int) Obs) Operator {
 		})
 	}
 }
+
+// MergeMapCold: project each value to an observable and merge. With inners that
+// run to their end synchronously inside the subscription this is: every inner's
+// values in arrival order; completion once the outer and all inners completed;
+// any error ends the output at once.
+func MergeMapCold(project func(v any, i int) Obs) Operator {
+	return func(src Obs) Obs {
+		return Guard(func(down Sink) {
+			i := 0
+			open := 1
+			done := func(o Sink) {
+				open--
+				if open == 0 {
+					o.Complete()
+				}
+			}
+			src(&observer{down: down, op: &F{
+				N: func(v any, o Sink) {
+					inner := project(v, i)
+					i++
+					open++
+					inner(&observer{down: o, op: &F{C: func(o Sink) { done(o) }}})
+				},
+				C: func(o Sink) { done(o) },
+			}})
+		})
+	}
+}
+
+// MergeWithCold: merge of the source with companions that are subscribed after
+// it, in order (each source is subscribed when the outer list reaches it).
+// Values in arrival order; completes once every source completed; the first
+// error ends the output.
+func MergeWithCold(next ...Obs) Operator {
+	return func(src Obs) Obs {
+		all := append([]Obs{src}, next...)
+		return Guard(func(down Sink) {
+			open := len(all) + 1
+			done := func(o Sink) {
+				open--
+				if open == 0 {
+					o.Complete()
+				}
+			}
+			for _, s := range all {
+				s(&observer{down: down, op: &F{C: func(o Sink) { done(o) }}})
+			}
+			done(down)
+		})
+	}
+}
